@@ -213,6 +213,11 @@ func (x *vtx) putRow(db [3]otable, isIns bool, t int, pk, v int64) bool {
 }
 
 func (x *vtx) dml(db [3]otable, op Op) bool {
+	// a read-only transaction refuses every statement that is not read-only (since 82bd2bd
+	// before executing it: also an UPDATE / DELETE that would match no row)
+	if x.ro {
+		return false
+	}
 	t := op.T % 3
 	switch op.K {
 	case KIns:
